@@ -32,6 +32,7 @@ func c02(c *core.Check) {
 	c02FirstLetter(c)
 	c02PrefixAppend(c)
 	c02EarlierBreakKeys(c)
+	c02WordPrefix(c)
 }
 
 func isResumeStack(t types.Type) bool {
